@@ -10,6 +10,8 @@ import (
 	"verif/internal/core"
 	"verif/internal/muxdiff"
 	"verif/internal/pattern"
+	"verif/internal/qevent"
+	"verif/internal/racer"
 	"verif/internal/sched"
 	"verif/internal/subs"
 )
@@ -20,6 +22,8 @@ var checks = map[string]func(*core.Ctx){
 	"C03": sched.Run,
 	"C06": muxdiff.Run,
 	"C09": subs.Run,
+	"C15": qevent.Run,
+	"C16": racer.Run,
 	"C17": pattern.Run,
 }
 
@@ -30,6 +34,14 @@ func main() {
 	}
 	if os.Args[1] == "__sched" && len(os.Args) == 4 {
 		sched.ChildMain(os.Args[2], os.Args[3])
+		return
+	}
+	if os.Args[1] == "__race" && len(os.Args) == 4 {
+		var seed int64
+		var rounds int
+		fmt.Sscan(os.Args[2], &seed)
+		fmt.Sscan(os.Args[3], &rounds)
+		racer.ChildMain(seed, rounds)
 		return
 	}
 	prop := os.Args[1]
